@@ -96,6 +96,11 @@ def r1_inner(ctx):
         v = base[0].value
         okb = v[0] == 'call' and v[1].endswith('::len') and any(s[0] == 'call' and s[1] == GEN and s[2][2] == PC and s[2][1] == ('ref', ('der', PB))
                                                                for s in subterms(v))
+        if not okb and v[0] == 'call' and v[1].startswith(MG + '::'):
+            # a counting twin of generate_moves (same cache discipline, returns only the length of the cached / generated list)
+            from . import c02
+            r_ = c02.move_cache_user(facts, v[1])
+            okb = r_['len_only'] and v[2][r_['board'] - 1] == ('ref', ('der', PB)) and v[2][r_['color'] - 1] == PC
     ctx.ob(rule, INNER, 'depth == 0 returns the number of legal moves of (board, color)', okb, found=show(base[0].value) if base else None,
            expected='generate_moves(board, color).len()', why='the base of the sum is the number of legal moves of the position')
     backs = [o for o in outs if o.kind == 'backedge']
@@ -162,6 +167,11 @@ def r2_outer(ctx):
     base = [o for o in outs if o.kind == 'return' and dict(o.conds).get(('p', 2)) == 0]
     okb = len(base) == 1 and base[0].value[0] == 'call' and base[0].value[1].endswith('::len') and any(
         s[0] == 'call' and s[1] == GEN and s[2][2] == ('p', 4) for s in subterms(base[0].value))
+    if not okb and len(base) == 1 and base[0].value[0] == 'call' and base[0].value[1].startswith(MG + '::'):
+        from . import c02
+        v_ = base[0].value
+        r_ = c02.move_cache_user(facts, v_[1])
+        okb = r_['len_only'] and v_[2][r_['color'] - 1] == ('p', 4) and v_[2][r_['board'] - 1] == ('ref', ('der', ('p', 3)))
     ctx.ob(rule, OUTER, 'depth == 0 returns the number of legal moves', okb, found=show(base[0].value) if base else None, expected='candidates.len()')
     step = [o for o in outs if o.kind == 'return' and dict(o.conds).get(('p', 2)) != 0]
     oks = bool(step)
